@@ -80,6 +80,55 @@ func c07Hand(r *lp.Run) {
 		}
 	}
 
+	// (1b) the outcome of parsing does not depend on the order in which components are met, and a reference
+	// is accepted exactly when the copy is
+	for _, pc := range []struct{ name, withRef, withCopy, class string }{
+		{"K31 an alias (a schema that is only a $ref) on a schema cycle",
+			`{"openapi":"3.0.3","info":{"title":"t","version":"1"},"paths":{},"components":{"schemas":{"A":{"$ref":"#/components/schemas/B"},"B":{"type":"object","properties":{"next":{"$ref":"#/components/schemas/A"}}}}}}`,
+			`{"openapi":"3.0.3","info":{"title":"t","version":"1"},"paths":{},"components":{"schemas":{"A":{"$ref":"#/components/schemas/B"},"B":{"type":"object","properties":{"next":{"$ref":"#/components/schemas/B"}}}}}}`, "K31"},
+		{"K32 a header component used under a valid and under an invalid header name",
+			`{"openapi":"3.0.3","info":{"title":"t","version":"1"},"paths":{"/x":{"get":{"operationId":"x","responses":{"200":{"description":"ok","headers":{"X-Good":{"$ref":"#/components/headers/H"}}},"201":{"description":"ok","headers":{"Bad Name":{"$ref":"#/components/headers/H"}}}}}}},"components":{"headers":{"H":{"schema":{"type":"string"}}}}}`,
+			`{"openapi":"3.0.3","info":{"title":"t","version":"1"},"paths":{"/x":{"get":{"operationId":"x","responses":{"200":{"description":"ok","headers":{"X-Good":{"$ref":"#/components/headers/H"}}},"201":{"description":"ok","headers":{"Bad Name":{"schema":{"type":"string"}}}}}}}},"components":{"headers":{"H":{"schema":{"type":"string"}}}}}`, "K32"},
+	} {
+		outcome := func(doc string) string {
+			var o string
+			res := lp.Guard(func() string {
+				sp, err := ogen.Parse([]byte(doc))
+				if err != nil {
+					o = "refused"
+					return ""
+				}
+				if _, err := parser.Parse(sp, parser.Settings{}); err != nil {
+					o = "refused"
+					return ""
+				}
+				o = "accepted"
+				return ""
+			})
+			if res == "panic" {
+				return "panic"
+			}
+			return o
+		}
+		seen := map[string]int{}
+		for k := 0; k < 40; k++ {
+			seen[outcome(pc.withRef)]++
+		}
+		cp := outcome(pc.withCopy)
+		r.PropCheck()
+		r.Count("c07 hand parse "+pc.name, "hand:parse-repeat", true)
+		if len(seen) == 1 && seen[cp] == 40 {
+			continue
+		}
+		f := lp.PropFail{Property: "C07", What: "parsing a document with a reference does not always end as parsing the document with the copy does (40 runs)", Input: map[string]any{"case": pc.name, "with_reference": pc.withRef, "with_copy": pc.withCopy}, Observed: fmt.Sprint(seen), Expected: "always " + cp}
+		if pc.class != "" {
+			f.Class = pc.class
+			r.Known(f)
+			continue
+		}
+		r.Fail(f)
+	}
+
 	// (2) reference versus copy: outcome of generation and compilation
 	scratch := os.Getenv("VERIF_SCRATCH")
 	if scratch == "" {
@@ -138,12 +187,38 @@ func c07Hand(r *lp.Run) {
 		b.copyPkg, b.copyErr = mod.Add(fmt.Sprintf("hc%d", i), []byte(c.withCopy), gen.Options{Generator: gen.GenerateOptions{IgnoreNotImplemented: []string{"all"}}})
 		bs = append(bs, b)
 	}
+	const g1Doc = `{"openapi":"3.0.3","info":{"title":"t","version":"1"},"paths":{
+ "/a":{"get":{"operationId":"opA","responses":{"200":{"$ref":"#/components/responses/R"}}}},
+ "/b":{"get":{"operationId":"opB","responses":{"200":{"description":"ok"},"default":{"$ref":"#/components/responses/R"}}}}},
+ "components":{"responses":{"R":{"description":"shared","content":{"application/json":{"schema":{"type":"object","properties":{"x":{"type":"string"}}}}}}}}}`
+	g1Pkg, _ := mod.Add("hg1", []byte(g1Doc), gen.Options{})
 	failing := map[string]bool{}
-	if _, err := mod.Build(); err != nil {
-		if be, ok := err.(*gc.BuildError); ok {
-			for _, n := range be.FailingPackages() {
-				failing[n] = true
+	bin, berr := mod.Build()
+	if be, ok := berr.(*gc.BuildError); ok {
+		// the packages of the recorded classes do not compile: note them, drop them, build the rest
+		for _, n := range be.FailingPackages() {
+			failing[n] = true
+			mod.Drop(n)
+		}
+		if len(failing) > 0 && !failing["hg1"] {
+			bin, berr = mod.Build()
+		}
+	}
+	if berr == nil && g1Pkg != nil {
+		if drv, err := gc.Start(bin); err == nil {
+			ans, _ := drv.Do(map[string]any{"pkg": "hg1", "cmd": "raw", "method": "GET", "path": "/b", "header": map[string][]string{},
+				"script": map[string]any{"respond": map[string]any{"$type": "*R", "$value": map[string]any{}}}})
+			drv.Close()
+			r.PropCheck()
+			r.Count("c07 hand g1", "hand:shared-response", true)
+			r.Note("shared response component: " + truncN(fmt.Sprint(ans), 300))
+			if ans["panic"] != nil || fmt.Sprint(ans["status"]) == "0" {
+				r.Known(lp.PropFail{Property: "C07", Class: "K33", What: "a response component used under a status code in one operation and under `default` in another keeps the first use's shape: the encoder of the second writes WriteHeader(0)", Input: map[string]any{"document": g1Doc, "request": "GET /b, handler returns *R"}, Observed: fmt.Sprint(ans["panic"], " status ", ans["status"]), Expected: "a response with a status code (as with the response written in place: a …StatusCode wrapper)"})
 			}
+		}
+	}
+	if _, err := bin, berr; err != nil {
+		if _, ok := err.(*gc.BuildError); ok {
 			if len(failing) == 0 {
 				r.Fail(lp.PropFail{Property: "C07", What: "the hand-written reference/copy module does not build and no package is named", Input: "c07Hand", Observed: truncN(err.Error(), 600), Expected: "builds"})
 			}
